@@ -132,6 +132,7 @@ class Mailbox:
         db.execute("UPDATE `mailbox_sides` SET `opened`=?, `mood`=?"
                    " WHERE `mailbox_id`=? AND `side`=?",
                    (False, mood, self._mailbox_id, side))
+        self._touch(when)
         db.commit()
 
         # are any sides still open?
